@@ -245,9 +245,10 @@ def shard(ctx, payload):
                 args.append((k.upper(),))
                 args.append((k.swapcase(),))
                 args.append((' ' + k + ' ',))
-                for _ in range(60 if thorough else 20):
-                    kind, v = variants.variant(k, rng.randrange)
-                    if v != k and v.isascii():
+                for i_ in range(60 if thorough else 24):
+                    # one transformation, or two / three in a row (a trailing zero AND an odd blank ...)
+                    kind, v = variants.variant(k, rng.randrange) if i_ % 2 else variants.variant_chain(k, rng.randrange, 2 + i_ % 4 // 2)
+                    if v != k and all(ch.isascii() or ch in '\u00a0\u2003' for ch in v):
                         args.append((v,))
                 args.append((k,))
             args += [('nonsense',), ('',), ('100m',), ('HJ1',)]
@@ -298,9 +299,9 @@ def shard(ctx, payload):
             # caller spellings of the event and gender x every carrier of the mark (the hand-timing decision and the
             # table lookup must be taken on the same reading of the code in both languages)
             spell = [' ' + ev, ev + ' ', '\t' + ev, ev + '\n', ' ' + ev.lower() + ' ', ev.lower(), ev.swapcase()]
-            for _ in range(12):
-                kind_, v = variants.variant(ev, rng.randrange)
-                if v != ev and v.isascii():
+            for i_ in range(14):
+                kind_, v = variants.variant(ev, rng.randrange) if i_ % 2 else variants.variant_chain(ev, rng.randrange, 2)
+                if v != ev and all(ch.isascii() or ch in '\u00a0\u2003' for ch in v):
                     spell.append(v)
                     spell.append(' ' + v)
             mid_age = ages[len(ages) // 2]
